@@ -118,6 +118,10 @@ TARGETS = [
      {'files': ('input_data', 'output_data'), 'params': [('self_in', 'bytes'), ('self_out', 'bytes')]}),
     # the column slicing of the parameter reader (read-only method: expanded flag, decoder, table index, layouts are parameters)
     ('cardutil/mciipm.py', 'IpmParamReader._get_param_field', {'record': 'bytes', 'field': 'str'}, 'str', {'readonly': True}),
+    # IpmReader.__next__: the base reader's method through super(), the message decoder as an external function of the
+    # record, the library error re-raised with the record number remembered BEFORE the read and the raw record as context
+    ('cardutil/mciipm.py', 'IpmReader.__next__', {}, ('dict', 'str', 'pyval'),
+     {'loads_ext': True, 'extern': {'loads_ext': ([('b', 'bytes')], ('dict', 'str', 'pyval'), True)}}),
     # the WHOLE of _iso8583_to_dict: header split (struct.unpack with a computed format, inside a try), bitmap, MTI check,
     # then the element loop; the element decoder and the bitmap reader are parameters
     ('cardutil/iso8583.py', '_iso8583_to_dict', {'return_values': ('dict', 'str', 'pyval')}, ('dict', 'str', 'pyval'),
@@ -160,6 +164,8 @@ TARGETS = [
 SELF_STATE = {'Block1014': {'fields': [('remaining_chars', 'int')], 'sink': 'file_obj'},
               'Unblock1014': {'fields': [('buffer', 'bytes')], 'source': 'file_obj'},
               'VbsReader': {'fields': [('record_number', 'int'), ('last_record', 'bytes')], 'source': 'vbs_data',
+                            'signals': True},
+              'IpmReader': {'fields': [('record_number', 'int'), ('last_record', 'bytes')], 'source': 'vbs_data',
                             'signals': True},
               'VbsWriter': {'fields': [('_finalised', 'bool')], 'file': 'out_file'},
               'BitArray': {'fields': [('bytes', 'bytes')]},
@@ -1323,6 +1329,49 @@ class Translator:
                 return (f'let {a} : {lean_type(t[1])} := ({c}).1;\n  let {b} : {lean_type(t[2])} := ({c}).2;\n  '
                         + self.stmts(rest, env2, ret, loop))
             return self.wrap(go_pair)
+        if isinstance(s, ast.Assign) and len(s.targets) == 1 and isinstance(s.targets[0], ast.Name) \
+                and isinstance(s.value, ast.Call) and isinstance(s.value.func, ast.Attribute) \
+                and s.value.func.attr == '__next__' and isinstance(s.value.func.value, ast.Call) \
+                and isinstance(s.value.func.value.func, ast.Name) and s.value.func.value.func.id == 'super' \
+                and not s.value.args and getattr(self, 'signals', False):
+            # x = super(...).__next__(): the translated base-class method on the current state; its StopIteration and its
+            # library error are this method's as well, its return value and new state go on
+            base = ALL_KNOWN.get('VbsReader.__next__')
+            if base is None or self.state_names != ['self_record_number', 'self_last_record', 'self_in']:
+                raise Untranslatable('super().__next__() without the translated base method')
+            if not self.monadic:
+                raise NeedMonad()
+            name = s.targets[0].id
+            env2 = dict(env)
+            env2[name] = (name, 'bytes')
+            body = self.stmts(rest, env2, ret, loop)
+            return (f'Outcome.bind ({base.name} self_record_number self_last_record self_in) (fun sig =>\n'
+                    f'  match sig with\n  | Rt.Signal.stop => .ok Rt.Signal.stop\n'
+                    f'  | Rt.Signal.libError n c => .ok (Rt.Signal.libError n c)\n'
+                    f'  | Rt.Signal.ret r =>\n    let {name} : Bytes := r.1;\n    let self_record_number : Int := r.2.1;\n'
+                    f'    let self_last_record : Bytes := r.2.2.1;\n    let self_in : Bytes := r.2.2.2;\n    {body})')
+        if isinstance(s, ast.Try) and getattr(self, 'signals', False) and not s.orelse and not s.finalbody \
+                and len(s.handlers) == 1 and len(s.body) == 1 and isinstance(s.body[0], ast.Assign) \
+                and len(s.body[0].targets) == 1 and isinstance(s.body[0].targets[0], ast.Name) \
+                and isinstance(s.handlers[0].type, ast.Name) and s.handlers[0].type.id == 'CardutilError' \
+                and len(s.handlers[0].body) == 1 and isinstance(s.handlers[0].body[0], ast.Raise):
+            # try: x = <external call>  except CardutilError as ex: raise MciIpmDataError(..., record_number=, binary_context_data=)
+            # the library's own error (and only it) becomes this method's library-error signal; anything else escapes
+            if not self.monadic:
+                raise NeedMonad()
+            name = s.body[0].targets[0].id
+            saved, self.pending = self.pending, []
+            c, t = self.expr(s.body[0].value, env)
+            binds, self.pending = self.pending, saved
+            if len(binds) != 1 or binds[0][0] != c:
+                raise Untranslatable('guarded statement that is not one external call')
+            call_code = binds[0][1]
+            handler = self.stmts([s.handlers[0].body[0]], env, ret, loop)
+            env2 = dict(env)
+            env2[name] = (name, t)
+            body = self.stmts(rest, env2, ret, loop)
+            return (f'match {call_code} with\n  | Outcome.ok {name} =>\n    ({body})\n  | Outcome.dataError =>\n    ({handler})\n'
+                    f'  | Outcome.escape k => .escape k\n  | Outcome.diverge => .diverge')
         if isinstance(s, ast.Assign) and len(s.targets) == 1 and isinstance(s.targets[0], ast.Name):
             name = s.targets[0].id
 
@@ -1444,7 +1493,7 @@ class Translator:
                 and isinstance(s.exc.func, ast.Name) and s.exc.func.id == 'MciIpmDataError':
             if not self.monadic:
                 raise NeedMonad()
-            kw = {k.arg: k.value for k in s.exc.keywords}
+            kw = {k.arg: k.value for k in s.exc.keywords if k.arg != 'original_exception'}
             if set(kw) != {'record_number', 'binary_context_data'}:
                 raise Untranslatable('library error raised without record_number / binary_context_data')
 
@@ -1774,6 +1823,17 @@ def translate_function(mod_ast, fdef, ptypes, ret, known, cls=None, opts=None):
     body = fdef.body
     if 'fragment' in opts:
         body = fragment_of([st for st in body], opts['fragment'])
+    if opts.get('loads_ext'):
+        class LoadsRw(ast.NodeTransformer):
+            def visit_Call(self, node):
+                f = node.func
+                if isinstance(f, ast.Attribute) and f.attr == 'loads' and isinstance(f.value, ast.Name) \
+                        and f.value.id == 'iso8583' and len(node.args) == 1:
+                    # the message decoder with the reader's own encoding and configuration: ONE external function of the record
+                    return ast.copy_location(ast.Call(func=ast.Name(id='loads_ext', ctx=ast.Load()),
+                                                      args=[self.visit(node.args[0])], keywords=[]), node)
+                return self.generic_visit(node)
+        body = [ast.fix_missing_locations(LoadsRw().visit(st)) for st in __import__('copy').deepcopy(list(body))]
     if opts.get('cipher'):
         body, used = cipher_idiom(list(body))
         if not used:
